@@ -233,6 +233,84 @@ chk('C14', 'model_checking',
     'the real code',
     'Options.tla, OptionsTrace.tla', 'DESIGN.md section 5, C14')
 
+chk('C03', 'model_checking',
+    'Three obligations. (1) Control: Hier.tla / Ddmin.tla satisfy Termination '
+    '(TLC liveness under weak fairness, no state constraint) for acyclic '
+    'reduction systems; recorded real runs against adversarial commands are '
+    'validated by TLC with NoRevisit. (2) The proposal relation: the closure '
+    'of the REAL mutators\' proposals around seed inputs is recorded and '
+    'emitted as a graph; TLC checks Rewrite.tla (Decreasing: every recorded '
+    'proposal strictly lowers a rank = no cycle; Changes: no proposal is a '
+    'no-op); a cycle is confirmed end to end by running ddSMT against the '
+    'command accepting exactly its members. (3) Every mutator call of the '
+    'exploration runs under a watchdog.',
+    'Closures are bounded (inputs per seed) around hand-kept and corpus '
+    'seeds: a bounded search for cycles, not a proof of well-foundedness; '
+    'time/memory per proposal is measured by the harness, not by TLC.',
+    'TLC liveness checking of the strategy specs + TLC check of the recorded '
+    'proposal graph of the real mutators + TLC trace validation (NoRevisit)',
+    'Hier.tla, Ddmin.tla, Rewrite.tla, TraceHier.tla, TraceDdmin.tla',
+    'DESIGN.md section 5, C03')
+
+chk('C10', 'fault_enumeration',
+    'Exec.tla models one execution of the command with limits in logical '
+    'time and six child behaviours (quick, sleep, spin, allocate, signal, '
+    'grandchild holding the pipes); TLC checks NoUnboundedWait (liveness), '
+    'TotalTimeBound, KilledIsGone, HangsTimeOut. The faults are enumerated '
+    'against the real code with real kernel limits: all placements of <= 3 '
+    'fault kinds x strategy x -j 1/2 x explicit or derived limit (x --memout); '
+    'observed: every faulty candidate rejected, wall time <= tests x limit + '
+    'slack, no command process survives, exit status; the recorded '
+    'executions (limit used, timed out, verdict) are judged by TLC '
+    '(ExecTrace.tla: TimeoutVerdictOK / DerivedLimitOK).',
+    'Kernel behaviour (rlimits, pipes held by grandchildren) is observed, '
+    'not modelled beyond the abstract child behaviours; wall-clock bounds '
+    'carry a generous slack.',
+    'TLC-checked execution model + enumerated faults against real '
+    'subprocesses + TLC validation of recorded executions',
+    'Exec.tla, ExecTrace.tla', 'DESIGN.md section 5, C10')
+
+chk('C16', 'model_checking',
+    'SmtSem.tla states the SMT-LIB typing rules (SortVal, ResSort, SortOf, '
+    'term positions). GenTerms.tla makes TLC enumerate every operator '
+    'instance x every admissible tuple of argument sorts of a sort universe '
+    '(variables, constants in every notation, applications of declared '
+    'functions, let, quantifiers, datatypes, one level of nesting) with the '
+    'sort of every term position; each case is replayed into '
+    'collect_information / get_sort / get_bv_width (pre-order and reverse '
+    'order): an answer must be unknown or the sort/width TLC computed; '
+    'disagreements and a sample are re-judged by TLC (SemConform.tla). The '
+    'same is recorded on the seed scripts of all theories and judged by TLC '
+    'at every term position; every proposal of Constants, ReplaceByVariable, '
+    'IntroduceFreshVariable (and ReplaceByChild where ddSMT claims a sort) '
+    'must keep the sort of the replaced term (TLC, kind samesort).',
+    'SmtSem.tla is the trusted statement of the typing rules (terms it '
+    'cannot type are not judged); bounded sort universe and nesting depth; '
+    'a bound variable proposed outside its scope is not a sort error.',
+    'TLA+ typing rules as exhaustive case generator replayed into the sort '
+    'inference + TLC judgement of recorded inferences and proposals',
+    'SmtSem.tla, GenTerms.tla, SemConform.tla', 'DESIGN.md section 5, C16')
+
+chk('C17', 'model_checking',
+    'SmtEval.tla states the value of terms (Core, Ints, Reals, bit-vectors, '
+    'datatypes, let, beta reduction with proper scoping, quantifiers over '
+    'finite domains). The real filter/mutations of the 21 mutators whose '
+    'documentation states an identity run on instance families of their '
+    'patterns (all widths 1-4 and 8, all index values, constants in every '
+    'notation and value, nested operands, arguments named like formal '
+    'parameters, shadowing and capturing lets) and on every term TLC '
+    'generates from GenTerms.tla; TLC (SemConform.tla, kind equiv) judges '
+    'every (original, replacement) pair: same sort, same value under every '
+    'assignment of the free constants and enclosing binders.',
+    'Bit-vectors wider than 4 and Int/Real symbols get sample values; '
+    'floating-point and string values are not evaluated (sort synonyms '
+    'only); n-ary forms outside the documented binary forms are out of '
+    'scope.',
+    'TLC evaluation (reference semantics in TLA+) of recorded rewrites of '
+    'the real mutators under all assignments',
+    'SmtSem.tla, SmtEval.tla, GenTerms.tla, SemConform.tla',
+    'DESIGN.md section 5, C17')
+
 NOT_YET = 'check not built yet (work in progress; see DESIGN.md section 10)'
 NOT_APPLICABLE = {}
 
@@ -271,6 +349,18 @@ ENGINES = [
      'TLA+ spec: proposal relation as transition system'),
     ('Conform.tla', 'specs/Conform.tla',
      'TLA+ trace/case validation of recorded implementation behaviour'),
+    ('Exec.tla', 'specs/Exec.tla',
+     'TLA+ spec: one execution of the command under limits'),
+    ('ExecTrace.tla', 'specs/ExecTrace.tla',
+     'TLA+ validation of recorded executions'),
+    ('SmtSem.tla', 'specs/SmtSem.tla',
+     'TLA+ operators: SMT-LIB sorts and typing rules'),
+    ('SmtEval.tla', 'specs/SmtEval.tla',
+     'TLA+ operators: values of SMT-LIB terms'),
+    ('GenTerms.tla', 'specs/GenTerms.tla',
+     'TLA+ spec: generator of well-sorted terms with their typing'),
+    ('SemConform.tla', 'specs/SemConform.tla',
+     'TLA+ validation of recorded sort inferences and rewrites'),
 ]
 
 
